@@ -224,8 +224,12 @@ def check(ctx):
             els = [ast.unparse(x) for x in cls_[0].args[2].elts[1:]]
             defs = single_defs(fn)
             nm = defs.get(els[0])
-            okm = ast.unparse(cls_[0].args[0]) == params[0] and els[1:] == [f'{params[1]}.tag', f'{params[1]}.info'] and nm is not None \
-                and ast.unparse(nm).startswith(f"getattr({params[1]}.target, 'name'")
+            from ..norm import inline_accessors, subst as _subst
+            # the name may be read in place, through a local, or through a small helper of the class: `getattr(<order>.target, 'name', ...)`
+            nm_ = inline_accessors(P, M, _subst(cls_[0].args[2].elts[1], defs))
+            nm_t = ast.unparse(nm_)
+            okm = ast.unparse(cls_[0].args[0]) == params[0] and els[1:] == [f'{params[1]}.tag', f'{params[1]}.info'] \
+                and (nm_t.startswith(f"getattr({params[1]}.target, 'name'") or nm_t == f'{params[1]}.target.name')
         if not okm:
             o.fail(P, f'Maintainer.{RH[0]}', '(now, target name, tag, info)', 'a work-order record must carry (time, target name, tag, info) under the given label', file=M.mod.path, line=fn.lineno)
         else:
@@ -248,6 +252,7 @@ def check(ctx):
                 import re as _re
                 # `d.setdefault(k, [])` / `d.setdefault(k, {})` is the look-up-or-create form of `d[k]`
                 rv = _re.sub(r'\.setdefault\((\w+),(\[\]|\{\})\)', r'[\1]', dv.canon_text(cl.func.value, n.frame))
+                rv = _re.sub(r'\.get\((\w+)\)', r'[\1]', rv)        # `d.get(k)` followed by a None test is the look-up form of `d[k]`
                 st = st.with_flag('stored2' if 'stored' in st.flags else 'stored')
                 st = st.with_flag('where:' + rv)
         if n.kind == 'stmt' and isinstance(a, ast.Assign) and isinstance(a.targets[0], ast.Subscript) and isinstance(a.value, ast.List) \
